@@ -1,5 +1,6 @@
 """C07 — each serialize_all style renames identifiers to exactly that documented case."""
-from vlib.defs import Item, Variant, Field, EM, ser, tos, render_item
+import copy
+from vlib.defs import Item, Variant, Field, EM, ser, tos, aci, render_item
 from vlib.run import Corpus
 from vlib import gen as G
 from vlib import strings as S
@@ -91,6 +92,7 @@ def build_corpus(tier, rng):
         if not ident.startswith("r#"):
             c.add_q(k0, "casing", ["snakifyu", S.hx(ident)] + tab, note="non-ascii")
     # (b) derive level
+    derive_items = []
     for si, st in enumerate(G.STYLES):
         for rep in range(3 if thorough else 1):
             names = DICT[:] if thorough else rng.sample(DICT, 14)
@@ -108,27 +110,37 @@ def build_corpus(tier, rng):
                 vs.append(v)
             # every other enum also carries a prefix: the renamed identifier — not the raw one — follows it
             it = Item("E", vs, metas=[EM("sall", st)] + ([EM("prefix", ["ns/", "Pre_Fix", ""][si % 3])] if (si + rep) % 2 else []))
-            cands = [it]
-            infos = G.classify(ID, cands)
-            info = infos[0]
-            if info is None or not info["nonoverlap"]:
+            derive_items.append(("derive", it))
+            # the same enum once more, case-insensitive as a whole with every third variant opting out again (or the other way round):
+            # the style renames a variant whatever its case-sensitivity is; two non-ASCII identifiers ride along
+            it2 = copy.deepcopy(it)
+            it2.variants += [Variant("ÉlanVital", "unit"), Variant("Ärger9Über", "tuple", [Field("u8")])]
+            for i, v in enumerate(it2.variants):
+                if i % 3 == 0:
+                    v.metas = list(v.metas) + [aci(si % 2 == 1, explicit=True)]
+            it2.metas = list(it2.metas) + ([EM("aci")] if si % 2 == 0 else [])
+            derive_items.append(("derive-case-insensitive", it2))
+    for fam, it in derive_items:
+        info = G.classify(ID, [it])[0]
+        if info is None or not info["nonoverlap"]:
+            continue
+        names = [v.ident for v in it.variants]
+        k = c.add_def(it, family=fam, derives=["EnumString", "Display", "AsRefStr", "IntoStaticStr", "VariantNames", "EnumMessage"], info=info)
+        vals = RR.sample_values(it)
+        c.meta[k]["vals"] = vals
+        c.add_q(k, "names", [], note="names")
+        for j, (i, _, tag) in enumerate(vals):
+            if tag == "default":
                 continue
-            k = c.add_def(it, family="derive", derives=["EnumString", "Display", "AsRefStr", "IntoStaticStr", "VariantNames", "EnumMessage"], info=info)
-            vals = RR.sample_values(it)
-            c.meta[k]["vals"] = vals
-            c.add_q(k, "names", [], note="names")
-            for j, (i, _, tag) in enumerate(vals):
-                if tag == "default":
-                    continue
-                for kind in ("display", "asref", "intostatic", "msg"):
-                    c.add_q(k, kind, [j, i], note=kind)
-            for vi in info["variants"]:
-                for sp in vi["spellings"]:
-                    c.add_q(k, "fromstr", [S.hx(sp)], note="spelling")
-            for ident in names:
-                c.add_q(k, "fromstr", [S.hx(ident)], note="near-ident")
-                if ident.startswith("r#"):
-                    c.add_q(k, "fromstr", [S.hx(ident[2:])], note="near-ident")
+            for kind in ("display", "asref", "intostatic", "msg"):
+                c.add_q(k, kind, [j, i], note=kind)
+        for vi in info["variants"]:
+            for sp in vi["spellings"]:
+                c.add_q(k, "fromstr", [S.hx(sp)], note="spelling")
+        for ident in names:
+            c.add_q(k, "fromstr", [S.hx(ident)], note="near-ident")
+            if ident.startswith("r#"):
+                c.add_q(k, "fromstr", [S.hx(ident[2:])], note="near-ident")
     return c
 
 
